@@ -71,12 +71,14 @@ def build(case):
     params = {}
     for n, r in zip(names, roles):
         a, b = COEF[r]
+        if variant == "zero_at_origin" and r in ("loc", "mu", "vmu"):
+            a = 0.0  # the location-like parameter is exactly 0 (falsy) at g = 0
         if n not in dep:
             fixed_kw["f_" + n] = a
             theta_funcs[n] = (lambda g, a=a: a)
             continue
         shape = dep[n]
-        if variant == "signature":
+        if variant in ("signature", "zero_at_origin"):
             d = DependenceFunction(mk_func(shape, a, b, True))
             theta_funcs[n] = (lambda g, s=shape, a=a, b=b: raw(s, g, a, b))
         elif variant == "assigned":
@@ -200,7 +202,7 @@ def run_case(case):
 def main(ctx):
     ctx.rule = ("complete product: template family (10) x every partition of its parameters into fixed/dependent "
                 "(dependent set non-empty) x dependence shape per dependent parameter {inc, dec, const} x coefficient "
-                "source {signature defaults, assigned parameters, default 1, chained through another DependenceFunction} "
+                "source {signature defaults, assigned parameters, default 1, chained through another DependenceFunction, location exactly 0 at g=0} "
                 "x method {pdf, cdf, icdf, draw_sample} x given kind {vector/vector, float, numpy scalar, length-1 "
                 "array, scalar given with vector x}. evaluations = method calls; a case is non-trivial if the "
                 "conditional cdf moves by > 1e-3 between the smallest and the largest conditioning value.")
@@ -215,6 +217,8 @@ def main(ctx):
                     variants = ["signature", "assigned"]
                     if assign == ("inc",) * k:
                         variants += ["chained"]
+                        if any(r in ("loc", "mu", "vmu") for n_, r in zip(names, roles) if n_ in dep_names):
+                            variants += ["zero_at_origin"]
                         if all(r not in ("loc",) for r in roles):
                             variants += ["default1"]
                     for v in variants:
